@@ -14,6 +14,8 @@ import (
 
 // Keys returns the keys of map m as a []K (boxed), ordered according to the
 // scheduler's choice (default ascending).
+//
+//go:norace
 func Keys(m interface{}) interface{} {
 	v := reflect.ValueOf(m)
 	kt := v.Type().Key()
@@ -38,6 +40,7 @@ func Keys(m interface{}) interface{} {
 	return out.Interface()
 }
 
+//go:norace
 func sortKeys(keys []reflect.Value, kt reflect.Type) {
 	switch kt.Kind() {
 	case reflect.Uint, reflect.Uint8, reflect.Uint16, reflect.Uint32, reflect.Uint64, reflect.Uintptr:
